@@ -47,6 +47,8 @@ type dPDB struct {
 	App         string `json:"app"`
 	Allowed     int32  `json:"allowed"`
 	AlwaysAllow bool   `json:"alwaysAllow,omitempty"`
+	// IfHealthy: unhealthyPodEvictionPolicy is set explicitly to IfHealthyBudget (same meaning as unset)
+	IfHealthy bool `json:"ifHealthy,omitempty"`
 }
 
 // dNodeX: disruption-relevant facts of a node that are not part of sim.NodeSpec.
@@ -301,7 +303,7 @@ func drawDisrupt(t *rapid.T, k dKnobs) *dScenario {
 	for i := 0; i < nPDB; i++ {
 		l := fmt.Sprintf("pdb%d", i)
 		s.PDBs = append(s.PDBs, dPDB{Name: l, App: rapid.SampledFrom([]string{"web", "db", "cache"}).Draw(t, l+"_app"),
-			Allowed: int32(rapid.SampledFrom([]int{0, 0, 1, 2}).Draw(t, l+"_allowed")), AlwaysAllow: dpct(t, 25, l+"_alwaysAllow")})
+			Allowed: int32(rapid.SampledFrom([]int{0, 0, 1, 2}).Draw(t, l+"_allowed")), AlwaysAllow: dpct(t, 25, l+"_alwaysAllow"), IfHealthy: dpct(t, 35, l+"_ifHealthy")})
 	}
 
 	// ---- nodes
@@ -772,6 +774,8 @@ func newDRunWith(s *dScenario, c *ev.Ctx, prepare func(*builtWorld)) *dRun {
 			Status: policyv1.PodDisruptionBudgetStatus{DisruptionsAllowed: p.Allowed}}
 		if p.AlwaysAllow {
 			pdb.Spec.UnhealthyPodEvictionPolicy = lo_ptr(policyv1.AlwaysAllow)
+		} else if p.IfHealthy {
+			pdb.Spec.UnhealthyPodEvictionPolicy = lo_ptr(policyv1.IfHealthyBudget)
 		}
 		w.Apply(pdb)
 	}
